@@ -153,3 +153,19 @@ def tasks(tier):
 def kani(tier):
     if tier != 'thorough': return []
     return [dict(harness='bank_state_table', oid='C14.k', covers=2, stubs=5, desc='SECOND ENGINE (Kani/CBMC on the compiled code): validate_bank_state == the 4 x 4 reference table (killed rejects everything)', functions=['marginfi::utils::validate_bank_state'], bounds='all 16 combinations, decided symbolically')]
+
+
+# ---------------------------------------------------------------- "a bank killed by bankruptcy accepts none of these, PERMANENTLY": shared with C07.e / C13.e - neither configuration
+# path can move a bank out of (or into) the killed state (seed C14-6 let Bank::configure move Killed -> Paused, from where a second configure reaches Operational)
+def t_killed_terminal(world):
+    import specs.C07 as C07
+    a = C07.t_configure_terminal(world); a[0].oid = 'C14.g.configure'
+    b = C07.t_configure_frozen_terminal(world, 'C14.g.frozen')
+    return a + b
+
+
+_t14g = tasks
+def tasks(tier):
+    return _t14g(tier) + [('killed_terminal', t_killed_terminal)]
+from specs.C07 import replay_configure as _rc14
+REPLAYERS = dict(globals().get('REPLAYERS', {})); REPLAYERS['configure'] = _rc14
